@@ -200,10 +200,12 @@ Lemma exec_coll_append : forall r n sd o v init s,
 Proof. reflexivity. Qed.
 Lemma exec_coll_remove : forall r n sd o v init s,
   exec r (S n) (KCollRemove sd o v init) s =
-  bind (exec r n (KFireRemove sd o v init) s)
-       (fun s1 => if memb v (coll_of s1 sd o)
-                  then Ok (set_cell s1 sd o (CList (remove1 v (coll_of s1 sd o))))
-                  else Err ValueError s1).
+  if memb v (coll_of s sd o)
+  then bind (exec r n (KFireRemove sd o v init) s)
+            (fun s1 => if memb v (coll_of s1 sd o)
+                       then Ok (set_cell s1 sd o (CList (remove1 v (coll_of s1 sd o))))
+                       else Err ValueError s1)
+  else Err ValueError s.
 Proof. reflexivity. Qed.
 Lemma exec_fire_append : forall r n sd o v init s,
   exec r (S n) (KFireAppend sd o v init) s =
@@ -283,24 +285,17 @@ Lemma o2m_remove : forall s p c, inv_o2m s -> p <> 0 -> c <> 0 ->
              /\ inv_o2m s'.
 Proof.
   intros s p c I P C. unfold step_prim, run_call, FUEL.
-  rewrite exec_coll_remove, exec_fire_remove. unfold tok_remove.
+  rewrite exec_coll_remove. destruct (memb c (coll_of s SA p)) eqn:M0; [|exists s; auto].
+  rewrite exec_fire_remove. unfold tok_remove.
   rewrite (fire_remove_o2m 5 s p c C P); [|apply has_dupes_NoDup; apply (o2m_nodup s I)|apply (o2m_loaded s I)].
-  cbn [bind]. destruct (memb c (coll_of (unparent s p c) SA p)) eqn:M.
-  - eexists. split; [left; reflexivity|].
-    assert (IN : In c (coll_of s SA p)).
-    { apply memb_In in M. unfold unparent in M. destruct (sb s c) as [| |v|]; try exact M.
-      destruct (v =? p); [rewrite coll_set_other_side in M by discriminate|]; exact M. }
-    assert (UC : coll_of (unparent s p c) SA p = coll_of s SA p).
-    { unfold unparent. destruct (sb s c) as [| |v|]; try reflexivity.
-      destruct (v =? p); [apply coll_set_other_side; discriminate|reflexivity]. }
-    rewrite UC. apply unparent_then_remove; auto.
-    + apply remove1_NoDup. apply (o2m_nodup s I).
-    + intros x. apply remove1_In. apply (o2m_nodup s I).
-  - eexists. split; [right; reflexivity|].
-    assert (NI : ~ In c (coll_of s SA p)).
-    { apply memb_false in M. intros H. apply M. unfold unparent. destruct (sb s c) as [| |v|]; try exact H.
-      destruct (v =? p); [rewrite coll_set_other_side by discriminate|]; exact H. }
-    rewrite (unparent_noop s p c I NI P). exact I.
+  cbn [bind].
+  assert (UC : coll_of (unparent s p c) SA p = coll_of s SA p).
+  { unfold unparent. destruct (sb s c) as [| |v|]; try reflexivity.
+    destruct (v =? p); [apply coll_set_other_side; discriminate|reflexivity]. }
+  rewrite UC, M0. eexists. split; [left; reflexivity|].
+  apply memb_In in M0. apply unparent_then_remove; auto.
+  - apply remove1_NoDup. apply (o2m_nodup s I).
+  - intros x. apply remove1_In. apply (o2m_nodup s I).
 Qed.
 
 (* invariants only look at the cells *)
